@@ -175,6 +175,15 @@ class Config:
                 self.kw['type_mapping'] = mapping
             self.call = lambda cache=None, **extra: Trajectory.from_lammps(coords_file=self.src[0], cache=cache, **{'data_file': self.src[1], **self.kw, **extra})
             self.variants = [{'temperature': self.kw['temperature'] + 100}, {'time_step': self.kw['time_step'] * 2}, {'constant_lattice': False}]
+            # argument sets whose serialised text differs by the byte pattern (+1, -2, +1) / (-1, +2, -1) on three
+            # neighbouring digits (879 / 798, 320 / 401): position-weighted checksums (Adler, Fletcher) collide on them
+            digs = [int(ch) for ch in str(int(self.kw['temperature']))]
+            if len(digs) == 3:
+                for sgn in (1, -1):
+                    nd = [digs[0] + sgn, digs[1] - 2 * sgn, digs[2] + sgn]
+                    if all(0 <= x_ <= 9 for x_ in nd) and nd[0] > 0:
+                        self.variants.append({'temperature': type(self.kw['temperature'])(int(''.join(map(str, nd))))})
+                        break
             if isinstance(self.kw['temperature'], int):
                 # argument sets whose values, written one after the other, read the same: (71, 12.0) / (711, 2.0)
                 T_, ts_ = str(self.kw['temperature']), str(self.kw['time_step'])
